@@ -11,6 +11,7 @@ import vlib
 tr = [f[:-3] for f in sorted(os.listdir('translators')) if f.endswith('.py')] if os.path.isdir('translators') else []
 errs = vlib.run_translators(tr)
 for e in errs: print('WARNING', e)
+vlib.ensure_coqproject()
 PY
 cd coq
 coq_makefile -f _CoqProject -o Makefile
